@@ -74,6 +74,8 @@ def env_fault(rng, fam, params, kinds=None):
         env["clock"] = clock_fault(rng, int(params.get("n_trial_calculation", 4) or 4))
     if "arpack" in kinds and fam == "pcovcur" and rng.random() < 0.7:
         env["arpack"] = {"mode": rng.choice(["dense", "sparse", "orth", "same"]), "seed": _seed(rng)}
+        if rng.random() < 0.08:
+            env["arpack"]["fail_at"] = rng.randint(1, 6)  # this ARPACK call does not converge
     if "rng" in kinds and rng.random() < 0.5:
         env["rng"] = {"seed": _seed(rng)}
     if "stderr" in kinds and params.get("progress_bar") and rng.random() < 0.6:
